@@ -13,6 +13,8 @@ inductive Eff where
   | recvLarge | recvSmall | recvBlobs | recvMeta | metaCommit | removeSmall | removeMeta | recordMeta
   -- blobserver.receive / hub / sync / index
   | storeReceive | hubNotify | queueSet | queueDelete | memEnqueue
+  -- server/sync copy path (C19)
+  | srcFetch | digestCheck | memDequeue | copyDone
   | commit | corpusAdd | noteIndexed | removeMissingEdges | initDeletes | initNeeded
   | gateStart | gateDone
 deriving DecidableEq, Repr
